@@ -17,10 +17,12 @@ O3(o) == <<o[1], o[2], o[3]>>
 MapOK(c) ==
   LET q == Q6(c.q) IN
   /\ Len(c.px) = q[5] * q[6]
+  \* a request that is exactly one stored tile returns that tile unresampled (pixel-identical to the tile service)
+  /\ (IsOneTile(G, q) /\ Contained(Ext, q)) => c.onetile # "differs"
   /\ \A k \in 1 .. Len(c.px) :
         LET i == (k - 1) % q[5]   j == (k - 1) \div q[5] IN
         /\ PixelOK(G, Ext, q, i, j, O3(c.px[k]))
-        /\ (IsOneTile(G, q) /\ Ext = G.bbox /\ Contained(Ext, q)) => OwnCell(G, q, i, j, O3(c.px[k]))
+        /\ TRUE
   \* skeleton: every upstream request made for this map request is at the resolution of an admissible level
   /\ Contained(Ext, q) => \A n \in 1 .. Len(c.up) :
         LET u == Q6(c.up[n]) IN
@@ -32,7 +34,13 @@ InfoCaseOK(c) == InfoOK(Q6(c.q), c.ci, c.cj, Q6(c.u), c.ui, c.uj)
 BadMaps == {i \in 1 .. Len(Data.maps) : ~MapOK(Data.maps[i])}
 BadInfos == {i \in 1 .. Len(Data.infos) : ~InfoCaseOK(Data.infos[i])}
 First(S) == IF S = {} THEN 0 ELSE CHOOSE i \in S : \A j \in S : i <= j
+BadPixels(c) == LET q == Q6(c.q) IN
+  {k \in 1 .. Len(c.px) : ~PixelOK(G, Ext, q, (k - 1) % q[5], (k - 1) \div q[5], O3(c.px[k]))}
 ASSUME PrintT(<<"verdict", [map |-> First(BadMaps), nmap |-> Cardinality(BadMaps),
+                            why |-> IF BadMaps = {} THEN <<>> ELSE
+                                 LET c == Data.maps[First(BadMaps)]  q == Q6(c.q) IN
+                                 <<Len(c.px) = q[5] * q[6], IsOneTile(G, q), Contained(Ext, q), c.onetile, NoTiles(G, q), Len(c.up)>>,
+                            badpx |-> IF BadMaps = {} THEN {} ELSE BadPixels(Data.maps[First(BadMaps)]),
                             info |-> First(BadInfos), ninfo |-> Cardinality(BadInfos)]>>)
 VARIABLE dummy
 TraceSpec == dummy = 0 /\ [][UNCHANGED dummy]_dummy
